@@ -32,14 +32,15 @@ def run(ctx):
     ctx.cov["exhaustive"] = True
     ctx.cov["rule"] = (
         "cases = 5 corpus programs (F1/F1b witnesses, saturation, cache) + EXHAUSTIVE sub-space: all %d add sequences of "
-        "length <= %d over the alias alphabet {a, a\\0, '', \\0} with weights 3,2,2,1,1 by position at width 1, depth 1, "
+        "length <= %d over the alias alphabet {a, a\\0, '', \\0} with weights 3,2,2,1,1,2 by position at width 1, depth 1, "
         "max_key_len 2 (exhaustive only for that sub-space) + random programs of <= 25 operations (add/update list/dict/"
         "add_ngram/update_ngram/merge incl. self-merge/save-load through files/query/generate_candidate_set/hh[k]) on up to "
         "4 sketches, width 1..4, depth 1..4, max_key_len 1..16, alias alphabet (empty, NUL runs, k, k+NUL, k+NULNUL, keys "
         "longer than max_key_len sharing the prefix, bytes >= 0x80), multiplicities {0,1,2,small,2^32-2..2^32+1}. "
         "Predicate on the implementation after every operation: hh[k] <= Counter[k[:max_key_len]] for the whole alphabet and "
-        "0 < n <= Counter[key] for every reported pair. distinct = distinct (shape, program); non-trivial = width <= 2 or an "
-        "alias pair present or a merge or a multiplicity >= 2^32-2." % (n_ex, 5 if quick else 6))
+        "0 < n <= Counter[key] for every reported pair. distinct = distinct (shape, program); non-trivial = two added keys "
+        "share a cell, or a key and its NUL-suffixed alias were both added, or two non-empty sketches were merged, or a cell "
+        "mass reached 2^32-2." % (n_ex, 5 if quick else 6))
     ctx.assumptions += ["np.uint64(len(key)) does not wrap (keys shorter than 2^64 bytes)",
                         "n_added_records does not wrap at 2^64",
                         "multiplicities are non-negative integers; thresholds are in [0, 2^32-1] (others raise OverflowError)",
